@@ -45,3 +45,7 @@ _kernel("C02", "kernel_interim", "interim", ("async", "sync"),
         symbolic="a sequence of up to 6 h11 events: each one's class (final or informational response) and status code (any integer allowed for its class), version, reason",
         bounds="HTTP11Connection._receive_response_headers, loop unwound to 6 events with an unwinding assertion: the event returned is the first final response (or 101), all its fields are its own, every interim response before it is skipped",
         outside="more than 5 interim responses before the final one; the h11 parser itself (native, C02.h1_segmentation)", also=("C01",))
+_kernel("C09", "kernel_expiry_h2", "expiry_h2", ("async", "sync"),
+        symbolic="as kernel_expiry, for HTTP2Connection._response_closed(stream) with 1 or 2 registered streams: connection state (ACTIVE/IDLE/CLOSED), terminated flag, stream ids used up, REAL instants and expiry",
+        bounds="UNBOUNDED and real-valued in time; 1 or 2 registered streams: permit released exactly once, the last stream turns an ACTIVE connection IDLE and arms t0 + expiry, other streams leave state and deadline untouched",
+        outside="more than two registered streams (the function only tests emptiness of the table)", also=("C16", "C12"))
